@@ -261,3 +261,9 @@ REQUIRED_THEOREMS["C01"] += ["C01_user_deleteEdge", "C01_user_addEdge", "C01_use
                              "C01_nodeInv_of_joint", "C01_note_deleteNode_foreign_pixels"]
 REQUIRED_THEOREMS["C11"] += ["C11_addEdge_forced_triple", "C11_deleteEdge_accepts", "C11_addEdge_refused", "C11_deleteEdge_refused",
                              "C11_addNode_refused_forced"]
+# ---- round 3: whole-history theorems -----------------------------------------------------------
+REQUIRED_THEOREMS["C01"] += ["C01_user_updateSeg", "C01_step_paint", "C01_user_all", "C01_undo_restores", "C01_user_step",
+                             "C01_user_edge_ops", "C01_user_all_of", "C01_undo_restores_of", "C01_note_updAttrs_unregistered"]
+REQUIRED_THEOREMS["C02"] += ["C02_session_valid", "C02_session_valid_of"]
+REQUIRED_THEOREMS["C03"] += ["C03_reach", "C03_reach_of", "C03_reach_ids_of", "C03_inv_congr_E"]
+REQUIRED_THEOREMS["C11"] += ["C11_updateSeg_refused"]
